@@ -6,6 +6,10 @@ Level 1: explicit-state BFS over all reachable states of the tree's own hashmap.
 Level 2: every define/redefine/undef history of length <= L over macro names whose probe sequences overlap in the
          real macro table, replayed through the shipped binary (cc1 -E) with every split of the history between
          -D/-U options and #define/#undef lines; a probe line after every in-file step.
+Level 2b: the same for definitions that differ in more than a value: 8 definition forms of one name (object-like,
+         function-like with renamed / permuted / variadic parameters, object-like whose body starts with a parenthesis);
+         every history of length <= 3 (thorough 4) over {define name k in form f, undef name k} for two colliding names
+         and <= 4 (5) for one name; the probe NAME(1,2) tells the forms apart.
 """
 import itertools, os, re
 from vlib import core
@@ -133,6 +137,77 @@ def _cli_batch(args):
     return n, bad
 
 
+# ---- level 2b: the definition is more than a value: object-like / function-like forms of one name ----------------
+# (kind, text after the name in #define, text for -D, expansion of the probe NAME(1,2) with white space removed)
+FORMS = [("obj", " 7", "=7", "7(1,2)"),
+         ("fn", "(a,b) a", "(a,b)=a", "1"),
+         ("fn", "(b,a) a", "(b,a)=a", "2"),          # same arity, same body spelling, parameters permuted
+         ("fn", "(a,b) b", "(a,b)=b", "2"),
+         ("fn", "(a,c) a c", "(a,c)=a c", "12"),
+         ("fn", "(a,...) a", "(a,...)=a", "1"),
+         ("fn", "(...) __VA_ARGS__", "(...)=__VA_ARGS__", "1,2"),
+         ("obj", " (a,b) a", "=(a,b) a", "(a,b)a(1,2)")]   # object-like: white space before the parenthesis
+
+
+def _forms_text(names, hist, split):
+    probe = " ".join("%s(1,2) ;" % n for n in names)
+    opts = ["-D%s%s" % (names[k], FORMS[f][2]) if op == "def" else "-U%s" % names[k] for op, k, f in hist[:split]]
+    lines = []
+    if split > 0:
+        lines.append("P%d: %s" % (split - 1, probe))
+    for i in range(split, len(hist)):
+        op, k, f = hist[i]
+        lines.append("#define %s%s" % (names[k], FORMS[f][1]) if op == "def" else "#undef %s" % names[k])
+        lines.append("P%d: %s" % (i, probe))
+    return opts, "\n".join(lines) + "\n"
+
+
+def _forms_expected(names, hist, upto):
+    d = {}
+    for op, k, f in hist[:upto + 1]:
+        if op == "def":
+            d[k] = f
+        else:
+            d.pop(k, None)
+    return "".join((FORMS[d[k]][3] if k in d else "%s(1,2)" % names[k]) + ";" for k in range(len(names)))
+
+
+def _cli_forms_batch(args):
+    chibicc, wd, names, hists = args
+    os.makedirs(wd, exist_ok=True)
+    bad = []
+    n = 0
+    src = os.path.join(wd, "h.c")
+    for hist in hists:
+        L = len(hist)
+        for split in splits(L):
+            opts, text = _forms_text(names, hist, split)
+            with open(src, "w") as f:
+                f.write(text)
+            st, out, err = core.run_limited([chibicc, "-cc1", "-E"] + opts + ["-cc1-input", src, src], cwd=wd)
+            n += 1
+            parts = re.split(r"(?m)^P(\d+):", out)
+            got = {parts[j]: "".join(parts[j + 1].split()) for j in range(1, len(parts) - 1, 2)}
+            problem = None
+            if st != 0:
+                problem = "status=%s" % st
+            else:
+                for i in ([split - 1] if split > 0 else []) + list(range(split, L)):
+                    exp = _forms_expected(names, hist, i)
+                    if got.get(str(i)) != exp:
+                        ge = (got.get(str(i)) or "").split(";")
+                        ee = exp.split(";")
+                        k = next((j for j in range(len(names)) if j >= len(ge) or ge[j] != ee[j]), 0)
+                        undefined = "%s(1,2)" % names[k]
+                        problem = ("probe-missing" if str(i) not in got else
+                                   "deleted-name-defined" if ee[k] == undefined else
+                                   "defined-name-absent" if k < len(ge) and ge[k] == undefined else "stale-definition")
+                        break
+            if problem:
+                bad.append((problem, hist, split, opts, text, out[-400:] + err[-400:]))
+    return n, bad
+
+
 def run(ctx):
     wb, have_geom = build_whitebox(ctx)
 
@@ -254,7 +329,38 @@ def run(ctx):
                                       "python3 -c 'import sys; g=sys.argv[1].split()[1:]; e=sys.argv[2].split()[1:]; sys.exit(0 if len(g)==len(e) and all(x==y or x==\"*\" for x,y in zip(e,g)) else 1)' \"$l\" \"$e\" || exit 1; done < got1.txt\nexit 0"))
         ctx.sample({"level": 2, "name_set": label, "names": names, "history": [list(x) for x in hists[len(hists) // 3]],
                     "rendering": _hist_text(names, hists[len(hists) // 3], 1)}, limit=7)
-    ctx.cover(traces_validated_against_impl=nruns, cli_histories=nh, cli_histories_with_table_growth=ngrow)
+    # level 2b: definition forms (object-like / function-like with renamed, permuted, variadic parameters) of two
+    # colliding names: every history of length <= Lf over {define name k in form f, undef name k}
+    fnames = name_sets[0][1][:2]
+    fops = [("def", k, f) for k in range(2) for f in range(len(FORMS))] + [("undef", k, 0) for k in range(2)]
+    fops1 = [o for o in fops if o[1] == 0]
+    fh = []
+    for ops, L in ([(fops, 3), (fops1, 4)] if ctx.tier == "quick" else [(fops, 4), (fops1, 5)]):
+        for l in range(1, L + 1):
+            fh += list(itertools.product(ops, repeat=l))
+    fh = sorted(set(fh), key=lambda h: (len(h), h))
+    batches = core.chunks(fh, max(1, len(fh) // (core.NPROC * 8) + 1))
+    res = core.pmap(_cli_forms_batch, [(ctx.chibicc, os.path.join(ctx.work, "clif_%d" % i), fnames, b) for i, b in enumerate(batches)])
+    nfruns = sum(r[0] for r in res)
+    for n, bad in res:
+        for problem, hist, split, opts, text, tail in bad:
+            hs = " ".join("define(%s%s)" % (fnames[k], FORMS[f][1]) if op == "def" else "undef(%s)" % fnames[k] for op, k, f in hist)
+            ctx.violation("C17|macro-cli|definition-forms|%s" % problem,
+                          "macro table history [%s] split=%d (first %d operations as -D/-U options) -> %s; probe NAME(1,2)" % (hs, split, split, problem),
+                          files={"h.c": text, "opts.txt": "\n".join(opts) + "\n",
+                                 "expected.txt": "\n".join("P%d:%s" % (i, _forms_expected(fnames, hist, i)) for i in range(len(hist))) + "\n"},
+                          replay=("python3 - <<'PYEOF'\nimport subprocess, os, re, sys\n"
+                                  "opts = [l for l in open('opts.txt').read().split('\\n') if l]\n"
+                                  "r = subprocess.run([os.environ['CHIBICC'], '-cc1', '-E'] + opts + ['-cc1-input', 'h.c', 'h.c'], capture_output=True, text=True)\n"
+                                  "if r.returncode != 0: sys.exit(1)\n"
+                                  "parts = re.split(r'(?m)^P(\\d+):', r.stdout)\n"
+                                  "got = {parts[j]: ''.join(parts[j + 1].split()) for j in range(1, len(parts) - 1, 2)}\n"
+                                  "exp = dict(l[1:].split(':', 1) for l in open('expected.txt').read().split('\\n') if l)\n"
+                                  "sys.exit(1 if any(got[k] != exp[k] for k in got if k in exp) else 0)\nPYEOF"))
+    ctx.sample({"level": "2b", "names": fnames, "forms": [f[1] for f in FORMS], "history": [list(x) for x in fh[len(fh) // 2]],
+                "rendering": _forms_text(fnames, fh[len(fh) // 2], 1)}, limit=8)
+    ctx.cover(traces_validated_against_impl=nruns + nfruns, cli_histories=nh, cli_histories_with_table_growth=ngrow,
+              cli_definition_form_histories=len(fh), definition_forms=len(FORMS))
     ctx.assume("hash geometry (capacity, hash function) is read from the tree's own hashmap.c/preprocess.c; "
                "if that white-box build fails the CLI level falls back to an FNV guess (macro_geometry field)")
     ctx.assume("key universes are bounded (<= 4 colliding + 2 neighbouring + 10 filler keys; 20 keys with at most 1-2 live for churn); larger universes are not explored")
